@@ -1,7 +1,9 @@
 (** C06 - output is a deterministic function of registry and settings-as-sets (statements only). *)
-From Coq Require Import List NArith String Bool.
+From Coq Require Import List NArith String Bool Permutation.
 From V Require Import Base.Strings Base.Result Model.Registry Model.Settings Model.Subst
-  Model.TypePath Model.Derives Model.Generate Model.Emit Model.Equal Proofs.GenProofs Proofs.SortDedup.
+  Model.TypePath Model.Derives Model.Generate Model.Emit Model.Equal Model.Reach
+  Model.Builders Model.BuildersSpec Proofs.GenProofs Proofs.SortDedup
+  Proofs.OrderFree Proofs.DerivesExamples.
 Import ListNotations.
 
 (** derive and attribute lists in the output are sorted by key and duplicate free *)
@@ -18,3 +20,176 @@ Theorem C06_emission_canonical :
     derives_tokens d1 = derives_tokens d2.
 Proof. exact derives_tokens_canonical. Qed.
 Print Assumptions C06_emission_canonical.
+
+(** * Universal theorems: the output is a function of the settings read as finite maps of
+    finite sets.
+
+    Vocabulary (Model/Reach.v): [same_set a b] = the lists have the same members;
+    [dreg_same dr1 dr2] = equal defaults as sets, the same keys with a recursive
+    registration, and for every key set-equal type-specific and recursive registrations;
+    [kmap_perm a b] = pairwise distinct keys, the same keys, set-equal values under equal
+    keys (a reordering of a hash map whose sets were filled in any order, with repetitions);
+    [settings_same s1 s2] = all fields but the derive registry equal, the substitute maps
+    agreeing on every lookup; [dreg_all sel dr] = every derive (attribute) mentioned in [dr];
+    [well_keyed] (Proofs/OrderFree.v) = a key (token string) determines the tokens. *)
+
+(** maps that are reorderings of each other are equal as finite maps of finite sets *)
+Theorem C06_reorderings_same :
+  forall dr1 dr2,
+    same_set (d_derives (dr_default dr1)) (d_derives (dr_default dr2)) ->
+    same_set (d_attrs (dr_default dr1)) (d_attrs (dr_default dr2)) ->
+    kmap_perm (dr_specific dr1) (dr_specific dr2) ->
+    kmap_perm (dr_recursive dr1) (dr_recursive dr2) ->
+    dreg_same dr1 dr2.
+Proof. exact dreg_perm_same. Qed.
+Print Assumptions C06_reorderings_same.
+
+(** [flatten_order_free]: the flat registries resolve every key to the same sets ... *)
+Theorem C06_flatten_order_free :
+  forall dr1 dr2 r fl1 fl2,
+    dreg_same dr1 dr2 -> flatten dr1 r = Ok fl1 -> flatten dr2 r = Ok fl2 ->
+    forall k,
+      same_set (d_derives (resolve_derives fl1 k)) (d_derives (resolve_derives fl2 k)) /\
+      same_set (d_attrs (resolve_derives fl1 k)) (d_attrs (resolve_derives fl2 k)).
+Proof.
+  exact (fun dr1 dr2 r fl1 fl2 Hs H1 H2 k =>
+           conj (flatten_order_free dr1 dr2 r fl1 fl2 Hs H1 H2 d_derives (or_introl eq_refl) k)
+                (flatten_order_free dr1 dr2 r fl1 fl2 Hs H1 H2 d_attrs (or_intror eq_refl) k)).
+Qed.
+Print Assumptions C06_flatten_order_free.
+
+(** ... hence to EQUAL emitted derive / attribute lists (with and without CompactAs) when a
+    key determines its tokens *)
+Theorem C06_flatten_tokens_order_free :
+  forall dr1 dr2 r fl1 fl2 s1 s2,
+    dreg_same dr1 dr2 -> s_compact_as s1 = s_compact_as s2 ->
+    key_functional (dreg_all d_derives dr1 ++ dreg_all d_derives dr2 ++ opt_list (s_compact_as s1)) /\
+    key_functional (dreg_all d_attrs dr1 ++ dreg_all d_attrs dr2) ->
+    flatten dr1 r = Ok fl1 -> flatten dr2 r = Ok fl2 ->
+    forall k,
+      derives_tokens (resolve_derives fl1 k) = derives_tokens (resolve_derives fl2 k) /\
+      derives_tokens (add_as_compact s1 (resolve_derives fl1 k)) =
+      derives_tokens (add_as_compact s2 (resolve_derives fl2 k)).
+Proof. exact resolve_tokens_order_free. Qed.
+Print Assumptions C06_flatten_tokens_order_free.
+
+(** substitutes: a reordering of a map with distinct keys answers every lookup alike *)
+Theorem C06_subs_order_free :
+  forall s1 s2 : substitutes,
+    NoDup (map fst s1) -> Permutation s1 s2 -> forall p, subs_get s1 p = subs_get s2 p.
+Proof. exact subs_perm_get. Qed.
+Print Assumptions C06_subs_order_free.
+
+(** [generate_order_free]: settings equal as maps of sets give token-identical modules *)
+Theorem C06_generate_order_free :
+  forall r s1 s2 teq m1 m2,
+    settings_same s1 s2 -> dreg_same (s_dreg s1) (s_dreg s2) ->
+    key_functional (dreg_all d_derives (s_dreg s1) ++ dreg_all d_derives (s_dreg s2) ++
+                    opt_list (s_compact_as s1)) /\
+    key_functional (dreg_all d_attrs (s_dreg s1) ++ dreg_all d_attrs (s_dreg s2)) ->
+    generate r s1 teq = Ok m1 -> generate r s2 teq = Ok m2 ->
+    emit_module s1 m1 = emit_module s2 m2.
+Proof. exact generate_order_free. Qed.
+Print Assumptions C06_generate_order_free.
+
+(** two registration histories whose derive / attribute calls are permutations of each
+    other and whose substitute maps answer alike (e.g. the substitute calls are the same
+    sub-history: [C16_rule_for_key]) generate token-identical modules *)
+Theorem C06_histories_order_free :
+  forall r s teq ops1 ops2 m1 m2,
+    Permutation (filter is_derive_op ops1) (filter is_derive_op ops2) ->
+    (forall p, subs_get (b_subs (fst (run_ops ops1))) p = subs_get (b_subs (fst (run_ops ops2))) p) ->
+    key_functional (history_args ops1 ++ opt_list (s_compact_as s)) ->
+    generate r (with_state s (fst (run_ops ops1))) teq = Ok m1 ->
+    generate r (with_state s (fst (run_ops ops2))) teq = Ok m2 ->
+    emit_module (with_state s (fst (run_ops ops1))) m1 =
+    emit_module (with_state s (fst (run_ops ops2))) m2.
+Proof. exact histories_order_free. Qed.
+Print Assumptions C06_histories_order_free.
+
+(** [output_order_free]: the WHOLE outcome of generation + emission (the tokens, or the
+    error, or the panic) is the same; [generate_tokens r s teq] is
+    [let* m := generate r s teq in emit_module s m] *)
+Theorem C06_output_order_free :
+  forall r s1 s2 teq,
+    settings_same s1 s2 -> dreg_same (s_dreg s1) (s_dreg s2) ->
+    key_functional (dreg_all d_derives (s_dreg s1) ++ dreg_all d_derives (s_dreg s2) ++
+                    opt_list (s_compact_as s1)) /\
+    key_functional (dreg_all d_attrs (s_dreg s1) ++ dreg_all d_attrs (s_dreg s2)) ->
+    generate_tokens r s1 teq = generate_tokens r s2 teq.
+Proof. exact generate_tokens_order_free. Qed.
+Print Assumptions C06_output_order_free.
+
+(** histories whose derive / attribute calls are permutations of each other and whose
+    substitute calls are the same sub-history (same relative order): same whole outcome *)
+Theorem C06_histories_output_order_free :
+  forall r s teq ops1 ops2,
+    Permutation (filter is_derive_op ops1) (filter is_derive_op ops2) ->
+    filter (fun o => negb (is_derive_op o)) ops1 = filter (fun o => negb (is_derive_op o)) ops2 ->
+    key_functional (history_args ops1 ++ opt_list (s_compact_as s)) ->
+    generate_tokens r (with_state s (fst (run_ops ops1))) teq =
+    generate_tokens r (with_state s (fst (run_ops ops2))) teq.
+Proof.
+  exact (fun r s teq ops1 ops2 P E KF =>
+           histories_tokens_order_free r s teq ops1 ops2 P
+             (same_sub_history_same_lookups ops1 ops2 E) KF).
+Qed.
+Print Assumptions C06_histories_output_order_free.
+
+(** [dedup]: [ensure_unique] has no iteration oracle in the model - it is a function of the
+    registry by construction.  What the implementation iterates in hash order are the path
+    groups; the new name of index [i] depends only on the groups of the one path that
+    lists it ... *)
+Theorem C06_dedup_suffix_local :
+  forall (m : groups) i,
+    (forall e1 e2 n1 n2, In e1 m -> In e2 m -> entry_suffix i (snd e1) = Some n1 ->
+                         entry_suffix i (snd e2) = Some n2 -> n1 = n2) ->
+    forall e, In e m -> entry_suffix i (snd e) <> None -> suffix_for m i = entry_suffix i (snd e).
+Proof. exact suffix_for_local. Qed.
+Print Assumptions C06_dedup_suffix_local.
+
+(** ... so every reordering of path groups in which an index is listed under one path
+    only renames every index the same way *)
+Theorem C06_dedup_suffix_perm :
+  forall (m1 m2 : groups) i,
+    Permutation m1 m2 ->
+    (forall e1 e2 g1 g2, In e1 m1 -> In e2 m1 -> In g1 (snd e1) -> In g2 (snd e2) ->
+                         In i g1 -> In i g2 -> e1 = e2) ->
+    suffix_for m1 i = suffix_for m2 i.
+Proof. exact suffix_for_perm_disjoint. Qed.
+Print Assumptions C06_dedup_suffix_perm.
+
+(** [dedup_order_free]: [ensure_unique] is the sanity pass, the grouping, and one renaming
+    pass ([rename_go m], Proofs/OrderFree.v) that looks the groups map up per index; the
+    groups map built by [build_groups] lists every index under its own path only (proved
+    invariant), hence visiting the path groups in ANY order [m'] gives every index the same
+    suffix and the same de-duplicated registry *)
+Theorem C06_dedup_order_free :
+  forall r,
+    ensure_unique r =
+    (let* _ := sanity r in let* m := build_groups r in Ok (rename_go m 0%N r)) /\
+    forall m m',
+      build_groups r = Ok m -> Permutation m m' ->
+      (forall i, suffix_for m i = suffix_for m' i) /\ rename_go m 0%N r = rename_go m' 0%N r.
+Proof.
+  exact (fun r => conj (ensure_unique_unfold r)
+                       (fun m m' Hb P => conj (build_groups_suffix_perm r m m' Hb P)
+                                              (ensure_unique_order_free r m m' Hb P))).
+Qed.
+Print Assumptions C06_dedup_order_free.
+
+(** the hypotheses are satisfiable (Proofs/DerivesExamples.v): two registries that are
+    reorderings with repetitions of each other on the cyclic registry with a generic root;
+    both generations succeed and the emitted tokens are equal *)
+Example C06_witness :
+  is_ok (generate ex_reg ex_settings (types_equal ex_reg)) = true /\
+  is_ok (generate ex_reg ex_settings' (types_equal ex_reg)) = true /\
+  (let* m := generate ex_reg ex_settings (types_equal ex_reg) in emit_module ex_settings m) =
+  (let* m := generate ex_reg ex_settings' (types_equal ex_reg) in emit_module ex_settings' m).
+Proof. exact ex_order_free. Qed.
+
+Example C06_witness_hyps :
+  settings_same ex_settings ex_settings' /\
+  dreg_same (s_dreg ex_settings) (s_dreg ex_settings') /\
+  well_keyed (s_dreg ex_settings) (s_dreg ex_settings') (s_compact_as ex_settings).
+Proof. exact ex_order_free_hyps. Qed.
